@@ -252,6 +252,72 @@ def float_accumulate(x):
     t /= 2
     return t == x
 
+class Base:
+    SCALE = 3
+
+    def __init__(self, v):
+        self.v = v
+        self._hidden = v + 1
+
+    @property
+    def hidden(self):
+        return self._hidden
+
+    def bump(self, d=1):
+        self.v += d
+        return self.v
+
+    def describe(self):
+        return self.v * self.SCALE
+
+    @staticmethod
+    def twice(x):
+        return 2 * x
+
+
+class Derived(Base):
+    SCALE = 5
+
+    def __init__(self, v, w):
+        super().__init__(v)
+        self.w = w
+
+    def bump(self, d=1):
+        r = super().bump(d)
+        return r + self.w
+
+
+def objects_basic(a, b):
+    o = Base(a)
+    o.bump()
+    o.bump(b)
+    return (o.v, o.hidden, o.describe(), Base.twice(a), o.twice(b))
+
+def objects_inheritance(a, b):
+    d = Derived(a, b)
+    r = d.bump(2)
+    return (r, d.v, d.describe(), isinstance(d, Base), d.hidden)
+
+def objects_alias(a):
+    o = Base(a)
+    p = o
+    p.v = a + 5
+    q = Base(a)
+    return (o.v, o is p, o is q, o.v == q.v)
+
+def fstring(a, s):
+    return f"{s}-{a}" == s + "-" + str(a)
+
+def attr_aug_assign(a):
+    o = Base(a)
+    o.v *= 2
+    o.v -= 1
+    return o.v
+
+def getattr_default(a):
+    o = Base(a)
+    return (getattr(o, "v", -1), getattr(o, "missing", -1), hasattr(o, "v"), hasattr(o, "nope"))
+
 def early_continue(a):
     out = 0
     for i in range(4):
@@ -293,6 +359,12 @@ CASES = {
     "enumerate_loop": [(2, 5)],
     "zip_loop": [(2, 5)],
     "early_continue": [(2,), (9,)],
+    "objects_basic": [(1, 2), (-3, 0)],
+    "objects_inheritance": [(1, 2)],
+    "objects_alias": [(4,)],
+    "fstring": [(3, "x")],
+    "attr_aug_assign": [(4,)],
+    "getattr_default": [(7,)],
     "str_more": [("ab", "b"), ("ab", "ab"), ("", "x")],
     "not_in_and_in": [(1, 2, 2), (1, 2, 3)],
     "list_mutation": [(1, 2)],
@@ -399,7 +471,11 @@ def main():
 
             def inputs(self, cx):
                 import ast as _ast
-                fn = [n for n in _ast.parse(textwrap.dedent(SNIPPETS)).body if isinstance(n, _ast.FunctionDef) and n.name == fname][0]
+                mod = _ast.parse(textwrap.dedent(SNIPPETS))
+                fn = [n for n in mod.body if isinstance(n, _ast.FunctionDef) and n.name == fname][0]
+                # methods of the snippet module's classes are executed, not summarised
+                cx.ghost["inline_ok"] = {f"xcheck.py:{c.name}.{m.name}" for c in mod.body if isinstance(c, _ast.ClassDef)
+                                         for m in c.body if isinstance(m, _ast.FunctionDef)}
                 out = {}
                 for p, v in zip(fn.args.args, args):
                     if isinstance(v, bool):
